@@ -295,9 +295,9 @@ class World:
     def pre_read(self):
         """What a strategy that looks at its account before acting does: read-only calls, made on the state an action is
         about to be applied to. Read-only calls must not influence anything (e.g. through values cached per instant)."""
+        call(self.e.get_balances())
         if self.cfg.get("lend"):
             call(self.e.get_loans())
-            call(self.e.get_balances())
 
     # ---- one action
     def apply(self, a):
@@ -318,6 +318,10 @@ class World:
                 for k, m in enumerate(self.meta):
                     if m["pair"] == pi:
                         self.bars_since[k] += 1
+                # what a job scheduled for exactly this bar's time does (jobs run BEFORE the events of their time): it looks at
+                # the account with the clock already at T, before the exchange has processed the bar stamped T
+                call(e.get_balances())
+                call(e.get_loans())
                 try:
                     call(e._on_bar_event(bs.BarEvent(T(self.t), bs.Bar(T(self.t - 1), PAIRS[pi], o, h, l, c, v))))
                 finally:
